@@ -16,7 +16,7 @@ class Family:
             from discopy import monoidal as m
             self.m = m
             self.rigid = False
-        elif name == "rigid":
+        elif name in ("rigid", "pro"):
             from discopy import rigid as m
             self.m = m
             self.rigid = True
@@ -32,6 +32,9 @@ class Family:
         return Ob(name)
 
     def ty(self, spec):
+        if self.name == "pro":          # self-adjoint types PRO(n): objects named 1, z = 0
+            assert all(o == (1, 0) for o in spec)
+            return self.m.PRO(len(spec))
         return self.m.Ty(*[self.ob(o) for o in spec])
 
     def box(self, b):
